@@ -349,6 +349,8 @@ pub fn handle_with(mut rq: Request, prog: &Prog, nonce: &str, client_len: usize,
                         let mut off = 0;
                         while off < piece.len() {
                             match w.write(&piece[off..]) {
+                                // (a transient error: call again, as write_all does)
+                                Err(e) if e.kind() == std::io::ErrorKind::Interrupted => continue,
                                 Ok(0) | Err(_) => break,
                                 Ok(n) => off += n,
                             }
@@ -361,6 +363,7 @@ pub fn handle_with(mut rq: Request, prog: &Prog, nonce: &str, client_len: usize,
                             let mid = off + (piece.len() - off) / 2;
                             let bufs = [std::io::IoSlice::new(&piece[off..mid]), std::io::IoSlice::new(&piece[mid..])];
                             match w.write_vectored(&bufs) {
+                                Err(e) if e.kind() == std::io::ErrorKind::Interrupted => continue,
                                 Ok(0) | Err(_) => break,
                                 Ok(n) => off += n,
                             }
